@@ -250,14 +250,15 @@ def oracle_n(ctx, st, n):
                              dict(desc, impulse_at=j), {"clause": "roll" if m % n else "identity"})
         # --- along axis 0 with the impulse basis (columns are traces), per-trace integer shifts
         svec = np.array([rng.randrange(-n + 1, n) for _ in range(n)], dtype=float)
-        for axis in (0, 1):
+        for axis, sdt in ((0, "float64"), (1, "float64"), (1, "int64"), (0, "int32")):
             desc = {"kind": "impulse_per_trace", "n": n, "dtype": dt, "signal": "impulse basis (np.eye(n))",
-                    "shift": "per-trace integers", "svec": svec.tolist(), "axis": axis}
-            y = call(ctx, st, "fshift", lambda: fourier.fshift(eye, svec, axis=axis), desc, {"clause": "per_trace"})
+                    "shift": "per-trace integers", "svec": svec.tolist(), "axis": axis, "shift_dtype": sdt}
+            sarr = svec.astype(sdt)
+            y = call(ctx, st, "fshift", lambda: fourier.fshift(eye, sarr, axis=axis), desc, {"clause": "per_trace"})
             if y is None:
                 continue
-            st.count("per_trace_axis%d" % axis)
-            st.nontrivial.add((n, dt, "per_trace", axis))
+            st.count("per_trace_axis%d_%s" % (axis, sdt))
+            st.nontrivial.add((n, dt, "per_trace", axis, sdt))
             if axis == 1:
                 exp = np.stack([np.roll(eye[i], int(svec[i])) for i in range(n)])
             else:
@@ -512,6 +513,10 @@ def model_correspondence(ctx, st, cases):
 # --------------------------------------------------------------------------
 # parabolic_max
 # --------------------------------------------------------------------------
+PARAB_AMPS = (1e-12, 1e-6, 2e-5, 1e-4, 80.0, 1e6, 1e12)
+DELAY_AMPS = (1e-6, 2e-5, 1e-4, 1.0, 80.0, 1e6)
+
+
 def gen_parab(ctx):
     rng = ctx.rng
     out = []
@@ -574,6 +579,19 @@ def parab_check(ctx, st):
                 if abs(float(ip) - (im + v)) > 1e-9 or abs(float(mx) - (b - be * be / (4 * al))) > 1e-9 * max(1, abs(b)):
                     ctx.fail("parabolic_max is not the vertex of the parabola through the three samples", desc,
                              {"clause": "parabola_vertex"})
+        # scale invariance (theorem C07_parabolic_max_scale_invariant): same index, value times c
+        for camp in PARAB_AMPS:
+            st.evals += 1
+            try:
+                ipc, mxc = utils.parabolic_max(np.array(x, dtype=float) * camp)
+            except Exception as e:  # noqa
+                ctx.fail("parabolic_max raised %r" % (e,), dict(desc, amplitude=camp), {"kind": "exception"})
+                continue
+            st.count("parabolic_scaled")
+            if abs(float(ipc) - mip) > 1e-9 * max(1.0, abs(mip)) or abs(float(mxc) / camp - mmx) > 1e-9 * max(1.0, abs(mmx)):
+                ctx.fail("parabolic_max(c*x) with c=%g gives (%r, %r): not (same index %r, c*value %r)"
+                         % (camp, float(ipc), float(mxc), mip, mmx * camp), dict(desc, amplitude=camp),
+                         {"clause": "parabola_scale"})
         rows_by_len.setdefault(len(x), []).append((x, float(ip), float(mx)))
     # 2-D branch: row-wise the same as the 1-D branch
     for ns, rows in rows_by_len.items():
@@ -783,11 +801,14 @@ def delay_sweep(ctx, st):
         a = min(6.0, max(2.5, N / 10))
         smax = max(1, N // 8)
         for dt in ("f64", "f32"):
-            sp = -ricker(N, a).astype(DT[dt])
             shifts = [0.0, float(rng.randrange(1, smax + 1)), -float(rng.randrange(1, smax + 1)),
                       rng.choice([0.5, -0.5, 1.5]), round(rng.uniform(-smax, smax), 3), 0.3]
-            for s in shifts:
-                desc = {"kind": "delay", "points": N, "a": a, "shift": s, "dtype": dt, "negate": True}
+            for js, s in enumerate(shifts):
+                amp = DELAY_AMPS[(N + js + (dt == "f32")) % len(DELAY_AMPS)]      # Volt-scale ... counts
+                sp = (-ricker(N, a) * amp).astype(DT[dt])
+                desc = {"kind": "delay", "points": N, "a": a, "shift": s, "dtype": dt, "negate": True,
+                        "amplitude": amp}
+                st.count("delay_amp_%g" % amp)
                 st.evals += 1
                 st.count("delay_len_mod4_%d" % (N % 4))
                 try:
@@ -804,7 +825,7 @@ def delay_sweep(ctx, st):
                 worst["res_" + key] = max(worst["res_" + key], rr)
                 if e > be:
                     ctx.fail("wave_shift_corrmax: estimated delay %.4f for applied shift %.4f (waveform length %d = %d "
-                             "mod 4, bound %.2f)" % (float(sc), s, N, N % 4, be), desc,
+                             "mod 4, amplitude %g, bound %.2f)" % (float(sc), s, N, N % 4, amp, be), desc,
                              {"clause": "delay", "len_mod4": N % 4})
                 elif rr > br:
                     ctx.fail("wave_shift_corrmax does not re-align the shifted copy (residual %.3g of the peak, "
@@ -817,9 +838,10 @@ def delay_sweep(ctx, st):
     w1 = w2 = 0.0
     for N in (range(40, 201) if ctx.thorough() else range(40, 104)):
         a = min(6.0, max(4.0, N / 10))
-        sp = -ricker(N, a)
+        amp = DELAY_AMPS[N % len(DELAY_AMPS)]
+        sp = -ricker(N, a) * amp
         shifts = np.array([-1.5, -1.0, 0.0, round(rng.uniform(-2, 2), 3), 1.0, 2.25, 0.0])
-        desc = {"kind": "cluster", "points": N, "a": a, "shifts": shifts.tolist()}
+        desc = {"kind": "cluster", "points": N, "a": a, "shifts": shifts.tolist(), "amplitude": amp}
         st.evals += 1
         st.count("shift_waveform_len_mod4_%d" % (N % 4))
         try:
@@ -840,6 +862,31 @@ def delay_sweep(ctx, st):
             ctx.fail("shift_waveform does not re-align a cluster of shifted copies (length %d = %d mod 4: shift error "
                      "%.3g sample, residual %.3g of the peak)" % (N, N % 4, e1, e2), desc,
                      {"clause": "realign", "len_mod4": N % 4})
+    # wave_shift_phase (phase-slope estimator): same clause, a few lengths x every amplitude
+    import warnings
+    wph = 0.0
+    for N in ((81, 82, 83, 121, 128, 127) if ctx.thorough() else (82, 83, 121)):
+        for amp in DELAY_AMPS:
+            s = round(rng.uniform(-0.9, 0.9), 3)
+            sp = -ricker(N, 6.0) * amp
+            desc = {"kind": "delay_phase", "points": N, "a": 6.0, "shift": s, "amplitude": amp}
+            st.evals += 1
+            st.count("delay_phase")
+            try:
+                with warnings.catch_warnings():
+                    warnings.simplefilter("ignore")
+                    r, sc = waveforms.wave_shift_phase(sp, fourier.fshift(sp, s), 30000.0)
+            except Exception as e:  # noqa
+                ctx.fail("wave_shift_phase raised %r" % (e,), desc, {"kind": "exception", "fn": "wave_shift_phase"})
+                continue
+            st.nontrivial.add(("delay_phase", N, amp, s))
+            e = abs(float(sc) - s)
+            rr = float(np.max(np.abs(r - sp)) / np.max(np.abs(sp)))
+            wph = max(wph, e)
+            if e > 0.05 or rr > 0.02:
+                ctx.fail("wave_shift_phase: estimated delay %.4f for applied shift %.4f (length %d, amplitude %g), "
+                         "residual %.3g" % (float(sc), s, N, amp, rr), desc, {"clause": "delay"})
+    ctx.measurements["wave_shift_phase_max_abs_error_samples (bound 0.05)"] = wph
     ctx.measurements["shift_waveform_sweep"] = {"max_shift_error_samples (bound 0.05)": w1,
                                                 "max_residual_rel_peak (bound 0.02)": w2}
 
@@ -858,7 +905,9 @@ def axis_spelling_check(ctx, st):
         for ntr in sorted({n // 2 + 1, 3, rng.randrange(1, 7)}):
             dt = rng.choice(["f64", "f32"])
             X = np.array([rng.randrange(-100, 101) for _ in range(ntr * n)], dtype=DT[dt]).reshape(ntr, n)
-            sv = np.array([gen_shift(rng, n, rng.choice(["int", "frac"])) for _ in range(ntr)], dtype=float)
+            allint = rng.random() < 0.4
+            sv = np.array([gen_shift(rng, n, "int" if allint else rng.choice(["int", "frac"])) for _ in range(ntr)],
+                          dtype=float)
             try:
                 ref = np.stack([fourier.fshift(np.ascontiguousarray(X[i]), float(sv[i])) for i in range(ntr)])
             except Exception as e:  # noqa
@@ -874,7 +923,9 @@ def axis_spelling_check(ctx, st):
                         A = X.T if use_t else np.ascontiguousarray(X.T).T
                     else:
                         A = np.ascontiguousarray(arr.T) if use_t and lname == "C" else (arr.T.copy(order="F") if use_t else arr)
-                    for sname, svv in (("1d", sv), ("column" if not use_t else "row",
+                    for sname, svv in (("1d", sv), ("1d_int64" if np.all(sv == np.round(sv)) else "1d_again",
+                                                   sv.astype(np.int64) if np.all(sv == np.round(sv)) else sv.copy()),
+                                       ("column" if not use_t else "row",
                                                    sv.reshape(-1, 1) if not use_t else sv.reshape(1, -1)),
                                        ("wrong_orientation", sv.reshape(1, -1) if not use_t else sv.reshape(-1, 1))):
                         if sname != "1d" and lname not in ("C",):
@@ -1180,6 +1231,12 @@ def replay(ctx, data):
         if kind == "parab":
             x = np.array(inp["x"], dtype=float)
             print("implementation parabolic_max:", utils.parabolic_max(x))
+            if "amplitude" in inp and x.ndim == 1:
+                ip, mx = utils.parabolic_max(x)
+                ipc, mxc = utils.parabolic_max(x * inp["amplitude"])
+                print("parabolic_max(c*x), c=%g:" % inp["amplitude"], (float(ipc), float(mxc)),
+                      " expected (same index, c*value) =", (float(ip), float(mx) * inp["amplitude"]))
+                return 1 if abs(float(ipc) - float(ip)) > 1e-9 * max(1, abs(float(ip))) else 0
             if x.ndim == 1:
                 o = common.Extracted(PROP, "Run").run_many([[2, len(x)] + [int(v) for v in x]], nproc=1)[0] \
                     if np.all(x == np.round(x)) else None
@@ -1206,8 +1263,13 @@ def replay(ctx, data):
             for f in c2.oracle_failures + c2.disagreements:
                 print("FAILS:", f["what"])
             return 1 if (rc or c2.oracle_failures or c2.disagreements) else 0
+        if kind == "delay_phase":
+            sp = -ricker(inp["points"], inp["a"]) * inp.get("amplitude", 1.0)
+            r, sc = waveforms.wave_shift_phase(sp, fourier.fshift(sp, inp["shift"]), 30000.0)
+            print("applied shift %r, wave_shift_phase estimate %r" % (inp["shift"], float(sc)))
+            return 1 if abs(float(sc) - inp["shift"]) > 0.05 else 0
         if kind == "cluster":
-            sp = -ricker(inp["points"], inp["a"])
+            sp = -ricker(inp["points"], inp["a"]) * inp.get("amplitude", 1.0)
             shifts = np.array(inp["shifts"])
             wav = np.stack([np.stack([fourier.fshift(sp * g, s) for g in (0.3, 1.0, 0.3)]) for s in shifts])
             out, applied = waveforms.shift_waveform(wav)
@@ -1219,7 +1281,7 @@ def replay(ctx, data):
         if kind == "delay":
             sp = ricker(inp["points"], inp["a"])
             if inp.get("negate"):
-                sp = -sp.astype(DT[inp.get("dtype", "f64")])
+                sp = (-sp * inp.get("amplitude", 1.0)).astype(DT[inp.get("dtype", "f64")])
             be, br = delay_bounds(inp["points"]) if inp.get("negate") else (0.05, 0.02)
             r, sc = waveforms.wave_shift_corrmax(sp, fourier.fshift(sp, inp["shift"]))
             print("applied shift %r, estimated %r, re-alignment residual %.3g of the peak (length %d = %d mod 4)" % (
@@ -1258,7 +1320,7 @@ def replay(ctx, data):
                 or int(y.dtype != eye.dtype)
         if kind == "impulse_per_trace":
             sv, ax = np.array(inp["svec"], dtype=float), inp["axis"]
-            y = fourier.fshift(eye, sv, axis=ax)
+            y = fourier.fshift(eye, sv.astype(inp.get("shift_dtype", "float64")), axis=ax)
             exp = np.stack([np.roll(eye[i] if ax == 1 else eye[:, i], int(sv[i])) for i in range(n)], axis=0 if ax == 1 else 1)
             return _cmp("per-trace integer shifts along axis %d vs per-trace rolls" % ax, y, exp, tol)
         if kind == "compose":
